@@ -349,6 +349,17 @@ impl Monitor for C05 {
                     }
                     ("directed:300-sequences", t)
                 }
+                7 if !ctx.tiny() => {
+                    // positions, ranks and intervals beyond 2^16 (three sequences, 150 000 symbols)
+                    let mut t = Vec::with_capacity(150_003);
+                    for part in 0..3 {
+                        let l = [70_000usize, 50_000, 30_000][part];
+                        t.extend((0..l).map(|_| *rng.pick(b"ACGT")));
+                        t.push(b'$');
+                    }
+                    ctx.count("texts_longer_than_65536", 1);
+                    ("directed:large-text", t)
+                }
                 _ => {
                     let s = pick_sentinel(rng);
                     let (_, t) = sentinel_text(rng, rng.clone().range(10, 120), s, (g % 3) as usize);
